@@ -14,7 +14,10 @@ import (
 type propRunner func(r *Run, rng *Rng, tier string) error
 type propReplayer func(path string) (violated bool, detail string, err error)
 
+type propWorker func() error // reads work items from stdin, writes results to stdout (fresh-process executions)
+
 type propDef struct {
+	worker     propWorker
 	header     string // Coq preamble of the case files
 	caseType   string
 	mismatchFn string
@@ -31,7 +34,9 @@ func main() {
 	seed := flag.String("seed", "1", "PRNG seed")
 	out := flag.String("out", "", "output directory")
 	replay := flag.String("replay", "", "replay file: re-run one recorded input against the implementation")
+	worker := flag.Bool("worker", false, "worker mode: execute work items from stdin in this fresh process")
 	flag.Parse()
+	installGlobalFatalTrap()
 	if flag.NArg() != 1 {
 		fmt.Fprintln(os.Stderr, "usage: harness [-tier T] [-seed N] [-out DIR] [-replay F] <property>")
 		os.Exit(2)
@@ -41,6 +46,17 @@ func main() {
 	if !ok {
 		fmt.Fprintf(os.Stderr, "unknown property %s\n", id)
 		os.Exit(2)
+	}
+	if *worker {
+		if d.worker == nil {
+			fmt.Fprintln(os.Stderr, "no worker for", id)
+			os.Exit(2)
+		}
+		if err := d.worker(); err != nil {
+			fmt.Fprintln(os.Stderr, "worker error:", err)
+			os.Exit(3)
+		}
+		os.Exit(0)
 	}
 	if *replay != "" {
 		if d.replay == nil {
